@@ -51,7 +51,7 @@ def _run_one(mon, req, strings, threads, calls, yld, env, seed, ref=None, first=
         if ref is not None:     # cold start: reference computed by the executor in another process
             rr, rm = os.path.join(d, 'ref'), os.path.join(d, 'refmsg')
             ref.raw.tofile(rr)
-            open(rm, 'w').write(''.join(m + '\n' for m in ref.msgs))
+            open(rm, 'w', encoding='latin1').write(''.join(m + '\n' for m in ref.msgs))
             extra = ['--ref', rr, rm, '--first', str(first)]
         req.tofile(rq)
         with open(st, 'wb') as fh:
@@ -117,7 +117,11 @@ def main(tier):
         corner[cfg] = remap[corner[cfg]]; corner[cfg] = corner[cfg][corner[cfg] >= 0]
         Q = Q[~bad]
         queries[cfg] = (Q, S)
+        # external references for the cold-start runs, one per process locale (messages of the parser quote bytes >= 0x80 as the locale's
+        # character classes dictate: an input of the call, not a matter of threads)
         refs[cfg] = libs[cfg].run(Q, S)
+        refs[(cfg, 1)] = execlib.Lib(cfg, env=dict(LOCPATH=locdir, LC_ALL='xx_VERIF', XV_SETLOCALE='1')).run(Q, S)
+        refs[(cfg, 0)] = refs[cfg]
         for fl in ('tsan', 'plain'):
             mons[(cfg, fl)] = build.harness(cfg, fl, 'thrmon')
     fnname = {f['id']: n for n, f in libs['shipped'].fns.items()}
@@ -129,7 +133,7 @@ def main(tier):
         Q, S = queries[cfg]
         # ThreadSanitizer runs work on a seeded subset of ~400 requests so that every request is executed by several threads
         # many times (a race needs two threads in the SAME code); plain runs use the whole set
-        ref = refs[cfg]
+        ref = refs[(cfg, 1 if loc else 0)]
         if fl == 'tsan' and len(Q) > 500:
             sel = np.random.default_rng(ck.seed * 7907 + i).choice(len(Q), 400, replace=False)
             sel = np.union1d(sel, corner[cfg])
@@ -160,7 +164,7 @@ def main(tier):
         i, (cfg, fl, th, calls, yld, loc), k = job
         env = dict(LOCPATH=locdir, LC_ALL='xx_VERIF') if loc else dict(LC_ALL='C')
         Q, S = queries[cfg]
-        return (i, (cfg, fl, th, calls, yld, loc)), run_one(mons[(cfg, fl)], Q, S, th, calls, yld, env, ck.seed * 1000 + i, ref=refs[cfg], first=k)
+        return (i, (cfg, fl, th, calls, yld, loc)), run_one(mons[(cfg, fl)], Q, S, th, calls, yld, env, ck.seed * 1000 + i, ref=refs[(cfg, 1 if loc else 0)], first=k)
     with ThreadPoolExecutor(6) as ex:
         results += list(ex.map(go_first, fu))
     tot['first_use_runs'] = len(fu)
@@ -177,6 +181,8 @@ def main(tier):
             continue
         if loc and 'xx_VERIF' not in rep['locale']:
             raise common.Inconclusive('synthetic locale not active in thread run: %r' % rep['locale'])
+        if rep.get('locale_before_threads', rep['locale']) != rep['locale']:
+            ck.violation('c17:process-locale-changed-by-concurrent-calls', 'the process locale is %r after the thread phase, %r before it' % (rep['locale'], rep.get('locale_before_threads')), where)
         if rep['serial_nondeterministic']:
             ck.violation('c17:serial-reference-not-deterministic', 'the same query gave two different results serially', where)
         if rep['mismatches']:
